@@ -449,7 +449,7 @@ def run_case(case, rep, *, quiet=False, count=True):
                     rep.count("newton_linear_solver_breakdown_not_judged")
                 rep.observe("newton-krylov-solver-breakdown", {"cfg": cfg, "kind": case["spec"]["kind"]})
                 return "inconclusive"
-            if not pair_ok and _diverged(mda, system, sol):
+            if not pair_ok and _diverged(mda, system, sol, discs):
                 # an algorithm/system pair without convergence guarantee ran away to huge or non-finite iterates and
                 # something downstream (e.g. the Newton linear solver) refused them: not judged
                 if count:
@@ -583,9 +583,9 @@ def _uses_gs_on_full_list(cfg):
     return cfg["cls"] == "MDASequential" and any(s["cls"] == "MDAGaussSeidel" for s in cfg["seq"])
 
 
-def _diverged(mda, system, sol):
+def _diverged(mda, system, sol, discs=()):
     big = 1e6 * (1.0 + max(float(np.max(np.abs(sol[nm]))) for nm in system.couplings))
-    for m in [mda, *leaves(mda)]:
+    for m in [mda, *leaves(mda), *discs]:
         try:
             data = m.io.data
         except Exception:
